@@ -442,6 +442,49 @@ def rule_fallible(ctx, rep):
             r.finding(inst, "parser/src/parser.rs:%d" % rl.line, "the conversion %s is not (only) used inside a fallible `{? }` action" % fn)
 
 
+TRIMMERS = ("trim_matches", "trim_start_matches", "trim_end_matches", "trim", "trim_start", "trim_end", "strip_prefix", "strip_suffix",
+            "replace", "replacen", "split_off", "truncate", "retain")
+
+
+def rule_trim(ctx, rep):
+    r = rep.rule("R-C09-trim", "inside the grammar, literal text taken from a token is never passed through a content-dependent trimming/replacing "
+                               "function (trim*, strip_*, replace*, retain): such calls remove or alter characters that belong to the literal's value",
+                 floor=150, floor_what="grammar functions scanned")
+    from rules.c08 import derives_from_token_text
+    n = 0
+    for b in sorted(ctx.prog.bodies.values(), key=lambda x: x.id):
+        fn = norm(b.id)
+        helper = (not fn.startswith(GRAM)) and b.f["crate"] == "ironplc_parser" and b.f["file"].endswith("parser/src/parser.rs") \
+            and not fn.startswith("ironplc_parser::parser::parse_library")
+        if not (fn.startswith(GRAM) or helper):
+            continue
+        n += 1
+        hits = []
+        for c in b.calls():
+            m = (c.callee or "").split("::")[-1]
+            if m in TRIMMERS and (c.callee or "").startswith(("core::str::", "alloc::str::", "alloc::string::String::")) and c.args:
+                # receiver derives from token text (directly or through chars/collect into a String)
+                tainted = derives_from_token_text(b, c.args[0])
+                if not tainted and helper:
+                    # a helper of the grammar file working on a `&str` parameter: the grammar hands it token text
+                    p = op_place(c.args[0])
+                    rt = b.root(p) if p else None
+                    tainted = bool(rt and 0 < rt[0] <= b.f["argc"] and "str" in b.local_ty(rt[0]))
+                if not tainted and b.f["dk"] == "Closure":
+                    # captured `&Token` / text: upvar rooted values
+                    p = op_place(c.args[0])
+                    rt = b.root(p) if p else None
+                    tainted = bool(rt and rt[0] == 1)
+                if tainted:
+                    hits.append((m, c))
+        inst = fn.replace(GRAM, "rule ")
+        if hits:
+            for m, c in hits:
+                r.finding("%s|%s on token text" % (inst, m), loc_str(b.f, c.loc), "`%s` is applied to the text of a literal token: characters that are part of the literal's value can be removed" % m)
+        else:
+            r.ok(inst, "%s:%d" % (b.f["file"], b.f["line"]))
+
+
 def run(ctx, rep):
     rep.not_decided += ["that accepted literals denote the right mathematical value (base conversion, underscores, unit sums, field order) - value computation",
                         "e.g. observed but not decidable structurally: fractions of d/h/m are scaled to microseconds instead of seconds"]
@@ -452,6 +495,7 @@ def run(ctx, rep):
     rule_sign(ctx, rep)
     rule_addr(ctx, rep)
     rule_fallible(ctx, rep)
+    rule_trim(ctx, rep)
     # arithmetic/panicking constructors on literal paths are shared with C04 (R-C04-panic): report the literal subset here too
     from rules.c04 import ENTRIES, entry_bodies
     from rules.panic_triage import TRIAGE
